@@ -1,4 +1,5 @@
 import Ledger.Proofs.SqlVolumesZeroSpec
+import Ledger.Proofs.SqlBalances
 import Ledger.Proofs.SqlRun
 
 /-!
@@ -10,11 +11,16 @@ FOR UPDATE` (regenerated: `Ledger.Generated.WriteSql.P.getBalances`).
 
 * PROVED in general (`getBalances_zero_rows`): its data-modifying part — any requested keys, any
   table contents satisfying the storage invariants — is `Spec.lockBalances` on `accounts_volumes`.
-* NOT proved in general: the SELECT … ORDER BY … FOR UPDATE part (row filter, order, row locks,
-  invisibility of the rows the same statement has just inserted). LeanPG's SELECT evaluator
-  (`evalSelect`, `sortOut`, the locking loop of `evalQuery`) has no lemma library yet. Fallback,
-  clearly labelled below: BOUNDED REGRESSION OBLIGATIONS — the whole statement run by kernel evaluation
-  (`decide +kernel`) on concrete worlds; finite facts, not theorems about all worlds.
+* PROVED in general (`getBalances_sem`): the WHOLE statement — CTE, FROM/WHERE (the or-chain of keys), projection,
+  ORDER BY (LeanPG's merge sort: a sorted permutation), FOR UPDATE loop — for ANY keys and ANY contents satisfying
+  `BalState` (TxState: alone, in a transaction, READ COMMITTED snapshot; AvInv; fresh command id; distinct row
+  ids): the answer is a permutation, sorted by (account, asset), of the `(account, asset, input, output)` of the
+  requested rows of this ledger that were visible BEFORE the statement — a never-used pair is NOT returned, the
+  statement does not see the zero row its own CTE inserts (the Go code fills in 0) —; afterwards the zero rows
+  exist (`avRunN`), exactly the returned rows carry the transaction's row lock (`lockRun`), and what the
+  transaction reads is `Spec.lockBalances` (`getBalances_view`).
+* The kernel-evaluated scenarios below remain as regression obligations (they also exercise two sessions:
+  the lock really blocks).
 -/
 namespace Ledger.C06b
 open Ledger.Sql Ledger.Base Ledger.Core Ledger.Generated.WriteSql
@@ -30,6 +36,33 @@ theorem getBalances_zero_rows (n : Nat) (env : Env) (b l : String) (id : Nat) (h
       (∀ l', l' ≠ l → ∀ k, avAbs s' b l' k = avAbs s b l' k) ∧
       (∃ rs' nr', s' = s.withTable (avT b rs' nr') ∧ AvInv (latestView s.w s.xid) rs' nr') :=
   getBalances_zero_rows_bridge n env b l id hb s rs nr hs rows av hwf habs
+
+/-- General: `GetBalances(keys)` as a whole (see the header). `sorted` are the output rows, `srcRid` their row ids. -/
+theorem getBalances_sem (n : Nat) (env : Env) (b l : String) (id : Nat) (keys : List BalanceRow) (hb : b.isEmpty = false)
+    (s : St) (rs : List Ver) (nr : Nat) (hs : BalState s b rs nr) :
+    ∃ (sorted : List OutRow) (tie : Bool),
+      ((P.getBalances b l id keys).mapM (execStmt (n + 8) env)).exec s =
+        (.ok [{ rel := { cols := ["accounts_address", "asset", "input", "output"], rows := sorted.map (·.vals) },
+                affected := sorted.length }],
+         ((s.withTable (avT b (avRunN (latestView s.w s.xid) s.xid s.cid l keys (rs, nr)).1
+                              (avRunN (latestView s.w s.xid) s.xid s.cid l keys (rs, nr)).2)).tie tie).withTable
+           (avT b (lockRun (latestView s.w s.xid) s.xid s.cid (avRunN (latestView s.w s.xid) s.xid s.cid l keys (rs, nr)).1 (sorted.map srcRid))
+                  (avRunN (latestView s.w s.xid) s.xid s.cid l keys (rs, nr)).2)) ∧
+      (sorted.map (·.vals)).Perm ((((rs.filter (fun r => r.visible (latestView s.w s.xid))).reverse).filter (fun r => balWanted l keys r.vals)).map
+        (fun r => r.vals.drop 1)) ∧
+      sorted.Pairwise (fun x y => balCmp (y.vals.take 2) (x.vals.take 2) ≠ .lt) ∧
+      (sorted.map srcRid).Perm ((((rs.filter (fun r => r.visible (latestView s.w s.xid))).reverse).filter (fun r => balWanted l keys r.vals)).map (·.rid)) :=
+  exec_getBalances n env b l id keys hb s rs nr hs
+
+/-- What the transaction reads afterwards: the row locks change nothing, the zero rows are `Spec.lockBalances`. -/
+theorem getBalances_view (b l : String) (keys : List BalanceRow) (s : St) (rs : List Ver) (nr : Nat) (hs : BalState s b rs nr)
+    (rids : List Nat) (av : PCV) (hwf : Map.WF av) (habs : ∀ k, avView (latestView s.w s.xid) rs l k = av.get? k) (k : Key) :
+    avView (latestView s.w s.xid)
+      (lockRun (latestView s.w s.xid) s.xid s.cid (avRunN (latestView s.w s.xid) s.xid s.cid l keys (rs, nr)).1 rids) l k =
+      (Spec.lockBalances { accountsVolumes := av } (bkOf keys)).accountsVolumes.get? k := by
+  unfold avView
+  rw [avGet_lockRun]
+  exact (avRunN_spec s.w s.xid s.cid hs.tx.xid hs.tx.cid l keys rs nr av hs.inv hwf habs).1 k
 
 /-! ### BOUNDED REGRESSION OBLIGATIONS (kernel evaluation on concrete worlds; not general theorems) -/
 
